@@ -54,7 +54,7 @@ const (
 	// (it normally takes microseconds) is reported as non-terminating.
 	// This is the only way to turn an endless loop inside the real code
 	// into a verdict; it is a cap, not a performance oracle.
-	nonTerminationCap = 45 * time.Second
+	nonTerminationCap = 20 * time.Second
 )
 
 var (
@@ -63,6 +63,9 @@ var (
 	epoch          = time.Unix(1_000_000_000, 0)
 
 	allLists = [][]uint32{{1}, {1, 2}, {1, 2, 4}, {1, 2, 4, 8}}
+	// For the exploration in which size classes come and go: also a list
+	// from which the smallest size class has disappeared.
+	changingLists = [][]uint32{{1}, {1, 2}, {1, 2, 4}, {1, 2, 4, 8}, {2, 4}}
 )
 
 // ---------------------------------------------------------------------------
@@ -770,7 +773,7 @@ func wfSeqs() []*mc.Seq {
 		{name: "wf-pagerank-1-2-4", analyzer: "pagerank", lists: allLists[2:3], timeouts: validTimeouts, depth: depth(6, 9)},
 		{name: "wf-pagerank-1-2-4-8", analyzer: "pagerank", lists: allLists[3:4], timeouts: validTimeouts, depth: depth(6, 9)},
 		// Size classes appear and disappear while actions execute; starts with [1 2].
-		{name: "wf-pagerank-changing-classes", analyzer: "pagerank", lists: allLists, timeouts: t60, depth: depth(6, 9), firstList: 1},
+		{name: "wf-pagerank-changing-classes", analyzer: "pagerank", lists: changingLists, timeouts: t60, depth: depth(6, 9), firstList: 1},
 		{name: "wf-smallest", analyzer: "smallest", lists: allLists, timeouts: validTimeouts, depth: depth(6, 9), firstList: 1},
 		{name: "wf-fallback", analyzer: "fallback", lists: allLists, timeouts: validTimeouts, depth: depth(6, 9), firstList: 1},
 	}
